@@ -43,6 +43,10 @@ def graphs(draw, max_nodes=10):
         if kind != 'const' and draw(st.integers(0, 9)) < 3:
             at = draw(st.integers(0, len(pos)))
             pos.insert(at, ['raw', draw(st.integers(0, 99))])
+        if kind in ('op', 'sim', 'summary', 'disc') and draw(st.integers(0, 24)) == 0:
+            # occasionally a node with many (11-14) positional parents: positions with two digits
+            while len(pos) < draw(st.integers(11, 14)):
+                pos.insert(draw(st.integers(0, len(pos))), ['raw', 100 + len(pos)])
         named = {}
         if kind in ('op', 'sim', 'summary') and prev and draw(st.integers(0, 9)) < 3:
             cands = [p for p in prev if ['node', p] not in pos]
@@ -73,6 +77,8 @@ def strat(tier):
         # how the supplied values reach the run: generate(with_values=...) or the batch override of BatchHandler.submit
         # (the path SMC / BO use for proposed parameters)
         'supply_via': st.sampled_from(['with_values', 'with_values', 'submit-override']),
+        # number of batches loaded and submitted before the first one is executed (the native client evaluates lazily)
+        'inflight': st.sampled_from([1, 1, 1, 2, 3]),
     })
 
 
@@ -115,7 +121,8 @@ class Undefined(Exception):
 
 
 class Ref(object):
-    def __init__(self, nodes, bs, seed, supplied, model_name):
+    def __init__(self, nodes, bs, seed, supplied, model_name, batch_index=0):
+        self.batch_index = batch_index
         self.n = {nd['name']: nd for nd in nodes}
         self.bs = bs
         self.seed = seed
@@ -163,7 +170,7 @@ class Ref(object):
                 if nd['uses_bs']:
                     kw['batch_size'] = self.bs
                 if nd['uses_meta']:
-                    kw['meta'] = ('meta', 0, self.seed, self.model_name)
+                    kw['meta'] = ('meta', self.batch_index, self.seed, self.model_name)
                 if nd['kind'] == 'disc':
                     kw['observed'] = tuple(self.argval(p, observed=True) for p in nd['pos'])
                 v = ('T', nm, args, tuple(sorted(kw.items())))
@@ -317,6 +324,26 @@ def run_case(case):
                  if calls.get(k, 0) != ref.expected.get(k, 0)}
         raise Violation('C03:call-counts', 'operations ran (actual, expected) times: %r for request %r with_values %r graph %r'
                         % (extra, req_names, sorted(supplied), nodes))
+    # several batches loaded and submitted before the first one executes: every batch must see its own metadata / values
+    k = case.get('inflight', 1)
+    if k >= 2 and not via_node and not override and not supplied:
+        import elfi.client
+        from elfi.model.elfi_model import ComputationContext
+        termops.reset()
+        with must_not_raise(P, '%d batches in flight; request %r' % (k, req_names)):
+            h = elfi.client.BatchHandler(m, ComputationContext(batch_size=bs, seed=seed), output_names=list(req_names))
+            for _ in range(k):
+                h.submit()
+            outs = [h.wait_next() for _ in range(k)]
+        for (gotb, bi) in outs:
+            rb = Ref(nodes, bs, seed, {}, m.name, batch_index=bi)
+            for (kind, nm), rn in zip(req, req_names):
+                e = termops.canon(rb.val(nm) if kind == 'val' else rb.obs(nm))
+                g = termops.canon(gotb[rn])
+                if g != e:
+                    raise Violation('C03:value-mismatch-with-batches-in-flight',
+                                    'batch %d of %d submitted before execution: output %r\n got      %r\n expected %r\n graph %r' % (bi, k, rn, g, e, nodes))
+        labels.append('batches-in-flight')
     # the .observed property of observable nodes
     nobs = 0
     for nm in names:
